@@ -3,16 +3,18 @@
 // part under -race, the sequential bulk without (regexp is ~30x slower there).
 //
 // Oracle (DESIGN.md appendix A2), written without any regular expression:
-//   (a) the host text of a planted address must not be a substring of what
-//       reaches the sink;
-//   (b) after deleting every placeholder, no maximal run over [0-9A-Fa-f:.]
-//       may parse (net.ParseIP; as it stands, or without one trailing :port,
-//       or without stray leading/trailing ':' '.') to a planted address;
-//   (c) every Write that reaches the sink ends in '\n';
-//   (d) the sink of any splitting of a byte stream into Write calls equals
-//       the sink of the same stream written with one Write;
-//   (e) with concurrent writers of whole lines, the sink is exactly the set
-//       of the writers' individually scrubbed lines.
+//
+//	(a) the host text of a planted address must not be a substring of what
+//	    reaches the sink;
+//	(b) after deleting every placeholder, no maximal run over [0-9A-Fa-f:.]
+//	    may parse (net.ParseIP; as it stands, or without one trailing :port,
+//	    or without stray leading/trailing ':' '.') to a planted address;
+//	(c) every Write that reaches the sink ends in '\n';
+//	(d) the sink of any splitting of a byte stream into Write calls equals
+//	    the sink of the same stream written with one Write;
+//	(e) with concurrent writers of whole lines, the sink is exactly the set
+//	    of the writers' individually scrubbed lines.
+//
 // Addresses are planted only where the property's precondition holds: bounded
 // on each side by a line boundary, whitespace, or punctuation other than ':'
 // (and, to stay clear of doubt, other than '.' and '_' — see notes in the
@@ -700,16 +702,29 @@ func checkResidue(res *vlib.Result, d *doc, sink, caseID, writes string) int {
 // ---- the writer under test behind a recording sink ----------------------------
 
 type recSink struct {
-	mu     sync.Mutex
-	writes [][]byte
+	mu      sync.Mutex
+	writes  [][]byte
+	n, max  int  // bytes received; budget (0 = none)
+	runaway bool // the budget was exceeded: the writer emits more than any scrubbing of its input
 }
+
+var errRunaway = fmt.Errorf("harness sink: output budget exceeded")
 
 func (s *recSink) Write(p []byte) (int, error) {
 	s.mu.Lock()
+	defer s.mu.Unlock()
+	if s.max > 0 && s.n+len(p) > s.max {
+		s.runaway = true
+		return 0, errRunaway // LogScrubber.Write stops on a sink error
+	}
+	s.n += len(p)
 	s.writes = append(s.writes, append([]byte(nil), p...))
-	s.mu.Unlock()
 	return len(p), nil
 }
+
+// sinkBudget: a placeholder is at most 5 times as long as the shortest address
+// text ("::"), so a correct sink never receives more than 5x the input.
+func sinkBudget(inputLen int) int { return 8*inputLen + 1024 }
 
 func (s *recSink) all() []byte {
 	s.mu.Lock()
@@ -751,7 +766,7 @@ type writeRec struct {
 // writeChunks sends the stream, cut at the given offsets, through a fresh
 // LogScrubber. ok=false when Write panicked (already reported).
 func writeChunks(res *vlib.Result, stream []byte, cuts []int, caseID string) (sink *recSink, ok bool) {
-	sink = &recSink{}
+	sink = &recSink{max: sinkBudget(len(stream))}
 	ls := &safelog.LogScrubber{Output: sink}
 	rec := writeRec{Case: caseID, Stream: bounded(stream), Cuts: cuts}
 	prev := 0
@@ -763,6 +778,10 @@ func writeChunks(res *vlib.Result, stream []byte, cuts []int, caseID string) (si
 		}
 	})
 	res.Obs("sink_writes_checked", int64(len(sink.writes)))
+	if sink.runaway {
+		res.Violatef("runaway-output", rec, "the sink was sent more than %d bytes for a stream of %d bytes (stream %q, write boundaries %v)", sink.max, len(stream), bounded(stream), cuts)
+		return sink, false
+	}
 	if w, bad := sink.firstPartial(); bad {
 		rec.Detail = fmt.Sprintf("sink received a Write not ending in newline: %q", bounded(w))
 		res.Violatef("partial-line-emitted", rec, "a Write reaching the sink does not end in '\\n': %q (stream %q, write boundaries %v)", bounded(w), bounded(stream), cuts)
@@ -826,10 +845,13 @@ func splitClass(stream, got, want []byte) string {
 		return "other"
 	}
 	cur, prev := string(in[k]), string(in[k-1])
+	// the line starts with an address, or (arbitrary streams) at least with
+	// address characters, directly after a line that ends in an address
+	head := leadingAddr(cur) || (len(cur) > 0 && isAddrChar(cur[0]) && cur[0] != ':')
 	switch {
-	case leadingAddr(cur) && trailingAddr(prev):
+	case head && trailingAddr(prev):
 		return "adjacent-addresses-across-newline"
-	case leadingAddr(cur) && strings.HasSuffix(prev, ":") && trailingAddr(strings.TrimSuffix(prev, ":")):
+	case head && strings.HasSuffix(prev, ":") && trailingAddr(strings.TrimSuffix(prev, ":")):
 		return "address-colon-newline-address"
 	}
 	return "other"
@@ -952,7 +974,7 @@ func enumerate(res *vlib.Result) {
 			forms = []string{"bare", "bracketed", "port"}
 		}
 		for _, form := range forms {
-			tok := mkToken(host, form, "4434", "")
+			tok := mkToken(host, form, "65535", "")
 			for li, l := range lefts {
 				for ri, r := range rights {
 					d := &doc{}
@@ -1152,7 +1174,13 @@ func concurrentWriters(res *vlib.Result, root *vlib.Rand) {
 		}
 		id := fmt.Sprintf("conc/%d", round)
 		rec := map[string]interface{}{"case": id, "writers": nw, "lines_per_writer": per}
-		sink := &recSink{}
+		total := 0
+		for _, ls := range lines {
+			for _, ln := range ls {
+				total += len(ln)
+			}
+		}
+		sink := &recSink{max: sinkBudget(total)}
 		ls := &safelog.LogScrubber{Output: sink}
 		start := make(chan struct{})
 		done := make(chan struct{})
@@ -1181,6 +1209,10 @@ func concurrentWriters(res *vlib.Result, root *vlib.Rand) {
 		res.Obs("concurrent_rounds", 1)
 		res.Obs("concurrent_lines", int64(nw*per))
 		res.Distinct(id)
+		if sink.runaway {
+			res.Violatef("runaway-output", rec, "concurrent writers: the sink was sent more than %d bytes for %d bytes written", sink.max, total)
+			continue
+		}
 		if w, bad := sink.firstPartial(); bad {
 			rec["detail"] = bounded(w)
 			res.Violatef("partial-line-emitted", rec, "concurrent writers: a Write reaching the sink does not end in '\\n': %q", bounded(w))
